@@ -890,8 +890,18 @@ func (s *Store) GCTracts(old []core.TractState, gone []core.TractID) {
 		s.maybeGCTract(tract)
 	}
 	for _, tract := range gone {
+		// Take the tract lock like every other operation that changes a tract,
+		// so that the removal cannot interleave with one in progress (e.g. pull
+		// the file out from under a PullTract that is re-creating it). If the
+		// tract is busy with a long-running operation we skip it; the curator
+		// repeats the instruction for as long as it applies.
+		if !s.tryLockTract(tract, WRITE) {
+			log.Infof("@@@ not gc-ing tract %s, gone: busy", tract)
+			continue
+		}
 		log.Infof("@@@ gc-ing tract %s, gone", tract)
 		s.removeTract(tract)
+		s.unlock(tract, WRITE)
 	}
 }
 
